@@ -369,3 +369,109 @@ def cli_cross(ctx, specs, violations, limit=40, tag="cli"):
                                    "cli_stderr": err[-30:], "model_exit": want_rc, "model_out": want_out, "model_stderr": em[-30:]})
     return {"sessions": n, "mismatches": bad,
             "rule": "sessions through the real `lace debug --minimal --command ...` built WITHOUT --cfg lace_verif: exit status, program output, debugger stderr vs the model"}
+
+
+ECHO2 = """        lea r0 msg
+        puts
+        getc
+        out
+        getc
+        out
+        in
+        halt
+msg     .stringz "in: "
+"""
+
+
+def cli_shared_stream(ctx, violations, n=24):
+    """The real binary (hooks off) with the debugger's script ON STANDARD INPUT, followed on the same stream by the
+    program's console input: the debugger must consume exactly its own lines (up to and including `quit`) and leave the
+    rest to the program.  Scripts: inspection commands, and `step`s that stop short of the first input instruction, then
+    `quit`.  Compared with the model (DebugText.v, script = stdin text, program input = the rest) and with a plain
+    `lace run` on the same input (transparency)."""
+    import clicommon, os
+    exe = ctx.cli()
+    rnd = random.Random(ctx.seed + 4242)
+    d = clicommon.fresh_dir(ctx, "clishared")
+    f = os.path.join(d, "echo2.asm")
+    open(f, "w").write(ECHO2)
+    insp = ["registers", "print r0", "print r7", "break list", "break add x3006", "break remove x3006", "assembly x3000",
+            "echo hello", "p msg", "bogus line", "print ^1"]
+    cases, jobs, metas = [], [], []
+    for k in range(n):
+        cmds = [rnd.choice(insp) for _ in range(rnd.randrange(0, 5))]
+        if rnd.random() < 0.5:
+            cmds.insert(rnd.randrange(len(cmds) + 1), rnd.choice(["step", "step into 2", "si 1"]))   # LEA, PUTS only
+        cmds.append(rnd.choice(["quit", "q", "QUIT"]))
+        sep = rnd.choice(["\n", ";", "\n", " ;\n"])
+        script = sep.join(cmds) + rnd.choice(["\n", ";"])
+        inp = "".join(rnd.choice("XYZ19 ") for _ in range(rnd.randrange(0, 5)))
+        src = [ord(c) for c in ECHO2]; st = [ord(c) for c in script]; ib = [ord(c) for c in inp]
+        nums = [0, 3000, len(src)] + src + [len(ib)] + ib + [0, 0, len(st)] + st
+        cases.append("DBGT " + " ".join(f"{v:x}" for v in nums))
+        jobs.append(lambda sc=script, i=inp: (clicommon.run_cli(exe, ["debug", f, "--minimal"], d, stdin=(sc + i).encode(), timeout=20),
+                                              clicommon.run_cli(exe, ["run", f, "--minimal"], d, stdin=i.encode(), timeout=20)))
+        metas.append((script, inp))
+    model = ctx.run_model(cases, tag="clishared")
+    got = clicommon.parallel(jobs)
+    cnt = bad = 0
+    for case, m, ((rc, so, se), (prc, pso, pse)), (script, inp) in zip(cases, model, got, metas):
+        fm, em = dbggen.decode_lines(m)
+        sm = dbggen.split_first(fm) if fm not in ([9], [8]) else None
+        if sm is None or sm["kind"] in (3, 4):
+            continue
+        cnt += 1
+        want_rc = {0: 0, 1: sm["code"], 2: 101, 7: 0}[sm["kind"]]
+        out = clicommon.program_output(so)
+        pout = clicommon.program_output(pso)
+        want_out = "".join(chr(c) for c in sm["out"])
+        why = None
+        if rc != want_rc:
+            why = f"exit status {rc}, model {want_rc}"
+        elif out is None or out.rstrip("\n") != want_out.rstrip("\n"):
+            why = "program output differs from the model"
+        elif rc != prc or out != pout:
+            why = "debugged run differs from the plain run on the same input"
+        if why:
+            bad += 1
+            if bad <= 3:
+                violations.append({"kind": "shared-stdin-session", "why": why, "case": case, "script_on_stdin": script,
+                                   "program_input": inp, "cli_exit": rc, "cli_stdout": so.decode("utf-8", errors="replace")[-400:],
+                                   "cli_stderr": se.decode("utf-8", errors="replace")[-400:], "plain_exit": prc,
+                                   "plain_stdout": pso.decode("utf-8", errors="replace")[-400:], "model_exit": want_rc, "model_out": want_out})
+    return {"sessions": cnt, "mismatches": bad,
+            "rule": "real binary, script on stdin followed by the program's input on the same stream; vs the model and vs a plain `lace run`"}
+
+
+def run_text_sessions(ctx, sessions, violations, aux=(), limit=10, note="", profile="debug"):
+    """sessions: (tag, feat, src, inp, script_text) -> both sides run the text (DBGT, script in --command); no encoded commands
+    are involved, so any spelling the parser accepts or rejects can be exercised."""
+    cases = []
+    for tg, feat, src, inp, text in sessions:
+        sc = [ord(c) for c in src]; tx = [ord(c) for c in text]
+        nums = [feat, 3000, len(sc)] + sc + [len(inp)] + list(inp) + [1, len(tx)] + tx + [0]
+        cases.append("DBGT " + " ".join(f"{v:x}" for v in nums))
+    ri, rm, crashes = ctx.run_both(cases, profile=profile, tag="dbgtext")
+    n = bad = 0
+    vkeys = set()
+    for c in crashes:
+        idx = c.get("case_index")
+        violations.append({"kind": "implementation-does-not-terminate" if c.get("hung") else "implementation-crashed",
+                           "profile": profile, "case": cases[idx] if idx is not None else None, "detail": c["tail"]})
+    for (tg, feat, src, inp, text), case, a, b in zip(sessions, cases, ri, rm):
+        if a is None:
+            continue
+        n += 1
+        why, outside = classify(compare_all(a, b), aux)
+        if why is None:
+            continue
+        bad += 1
+        key = (tg, why)
+        if key in vkeys or len(vkeys) >= limit:
+            continue
+        vkeys.add(key)
+        violations.append({"kind": "correspondence-differs-outside-the-property" if outside else "model-vs-implementation",
+                           "no_failing_input": outside, "why": why, "profile": profile, "tag": tg + ":text", "case": case,
+                           "script": text, "implementation": a, "model": b,
+                           "implementation_stderr": dbggen.decode_lines(a)[1], "model_stderr": dbggen.decode_lines(b)[1], "note": note})
+    return {"sessions": n, "mismatches": bad}
